@@ -38,4 +38,11 @@ theorem overlaps_tie (e1 e2 : C04.Entry) :
 example : CodeC04.overlaps { mt := .beg, path := "/app/sub".toList } { mt := .pfx, path := "/App".toList } = true := by
   decide
 
+/-- **the map builder keeps exactly the path-type order it is given**: `CreateMaps` neither reorders nor filters
+it (the exact-first rule is applied later, by `rebuildMatchFiles`, on a copy).  The translation has value semantics:
+a version of `CreateMaps` that WRITES to its argument — the slice `global.MatchOrder` every later builder receives —
+does not translate (index loops / slice surgery are outside the subset), so this obligation breaks; the
+correspondence run then uses one shared order slice for all cases, as the controller does (seed C04f). -/
+theorem createMaps_tie (order : List GoLib.MatchType) : (CodeC04.createMaps order).matchOrder = order := rfl
+
 end HapVerif.C04Tie
